@@ -437,6 +437,12 @@ class ModuleVistor(NodeVisitor):
                         )
                     # Must be a Module since the exports is set to an empty list if it's not.
                     assert isinstance(current, model.Module)
+                    if isinstance(ob, model.Package):
+                        # Like a module, a package is analysed where it was written: the modules 
+                        # it holds too (their relative imports start from there), before it moves.
+                        for sub in self.system._subtree(ob):
+                            if isinstance(sub, model.Module) and sub.state is model.ProcessingState.UNPROCESSED:
+                                self.system.getProcessedModule(sub.fullName())
                     ob.reparent(current, as_name)
                     return True
         return False
